@@ -221,6 +221,16 @@ Ninth round (C20, C08, C17; informed): 9 changes, 4 missed at first.
 * `seeded/C17-r9c17-m1/m2/m3` (strict `>` reduction in `latest()`, `find` de-duplicating equal neighbours, sorted insertion in `find_n`):
   caught as they were.
 
+Tenth round (third session; all six claimed properties, two changes each, agents given only the property text): 12 changes, none missed.
+`seeded/C07-r10c07-m1/m2` (designation index bound check dropped; plain `-`/`.abs()` on leap corrections) fired `C07.panic` from the
+bit-flip faults; `C08-r10c08-m1` (std/ut pair rule enforced by a plain `zip`, so `isstdcnt=0` with a UT indicator passes) fired `C08.typed`,
+`m2` (arithmetic skip of the 32-bit block assuming `isstdcnt == isutcnt`) fired `C08.fidelity` on the re-encoded corpus; `C15-r10c15-m1`
+(thread-local memo of the last search keyed by the transition table's address and length, so two rule-only zones collide) fired
+`C15.alone_vs_concurrent`, `m2` (`$TZDIR` fallback) `C15.ambient_read`; `C17-r10c17-m1` (count saturating at n+1) and `m2` (`latest()` reading
+stale slots of a reused buffer) fired the C17 buffer oracles; `C19-r10c19-m1` (no-alloc forward scan returning `Err` on an exact hit) and `m2`
+(`Path::join` under std, `format!` otherwise) fired the cross-build comparison; `C20-r10c20-m1` (empty files skipped in the directory scan)
+and `m2` (`:localtime` treated as `localtime`) fired `C20.open_history`.
+@@R11@@
 Two-site breakages (`seeded/C07-duo2-m1`, `C08-duo2-m2`, `C17-duo2-m3`): each consists of two edits in different functions that are
 harmless alone (a relaxed range check in `TimeZoneRef::new` + a hoisted index in `find`; explicit enum discriminants + a numeric version
 comparison; an up-front validation in `find_n` + a reordered range check in the shared search). All three combinations were caught by the
